@@ -481,6 +481,8 @@ func runC09(c *CaseCtx) *CaseResult {
 	cc.Mon = MonCfg{TreeEvery: 1, ReachEvery: 1, DeepEvery: 0, RefEvery: 0, ColdAtCommit: true, HealthAtCommit: true, DirtyEvery: 5}
 	cc.CommitEvery = 60
 	cc.EvictEvery = []int{0, 1, 2}[c.Case/2%3]
+	cc.DrainAtEnd = c.Case%3 != 2
+	cc.DrainedIsOneSlab = true
 	if kind == "map" {
 		cc.Dig = &DigProfile{Alpha: [4]uint64{uint64(3 + r.Intn(20)), uint64(1 + r.Intn(3)), 2, 0}, Salt: uint64(r.Int63())}
 		cc.Prof.KeySpace = 150
@@ -870,10 +872,10 @@ func staleHandleAfterReattach(w *World, root *Node) error {
 // detachedPlay keeps some detached containers alive (stale handle kept, or reloaded by slab id), mutates them through
 // that handle while the former parent keeps changing, re-attaches them elsewhere or disposes of them.
 type detachedPlay struct {
-	maxKept, dropPct, playPct      int
-	staleMut, staleWhileReplaced   int
-	detachedAt                     map[*Node]int
-	setup                          bool
+	maxKept, dropPct, playPct    int
+	staleMut, staleWhileReplaced int
+	detachedAt                   map[*Node]int
+	setup                        bool
 }
 
 func newDetachedPlay(maxKept, dropPct, playPct int) *detachedPlay {
